@@ -79,7 +79,7 @@ def closeTxn (spec : Bool) (cfg : Cfg) (s : St) : St :=
       | none => "C-"
     { z := z', cur := none, out := snap :: s.out }
 
-def stepItem (spec : Bool) (v : Variant) (cfg : Cfg) (s : St) : Item → St
+def stepItem (spec quiet : Bool) (v : Variant) (cfg : Cfg) (s : St) : Item → St
   | .txn r c =>
     let s := closeTxn spec cfg s
     match beginTxn s.z r with
@@ -91,9 +91,10 @@ def stepItem (spec : Bool) (v : Variant) (cfg : Cfg) (s : St) : Item → St
       match applyOp v cfg ver o with
       | .ok ver' =>
         { s with cur := some (some ver', c),
-                 out := if spec then s.out else ("+" ++ showSnap ver'.nodes ver'.delegs) :: s.out }
-      | .error e => { s with out := if spec then s.out else (showErr e ++ showSnap ver.nodes ver.delegs) :: s.out }
-    | _ => { s with out := if spec then s.out else "-" :: s.out }
+                 out := if spec || quiet then s.out else ("+" ++ showSnap ver'.nodes ver'.delegs) :: s.out }
+      | .error e =>
+        { s with out := if spec || quiet then s.out else (showErr e ++ showSnap ver.nodes ver.delegs) :: s.out }
+    | _ => { s with out := if spec || quiet then s.out else "-" :: s.out }
   | .query n =>
     let s := closeTxn spec cfg s
     match s.z with
@@ -151,8 +152,8 @@ def runGuard (v : Variant) (cfg : Cfg) (z0 : ZState) (items : List Item) : Strin
   let s := gClose (items.foldl (gStep v cfg) { z := z0, cur := none, ok := true, out := [] })
   " ".intercalate ("ok" :: s.out.reverse)
 
-def runLine (spec : Bool) (v : Variant) (cfg : Cfg) (z0 : ZState) (items : List Item) : String :=
-  let s := closeTxn spec cfg (items.foldl (stepItem spec v cfg) { z := z0, cur := none, out := [] })
+def runLine (spec quiet : Bool) (v : Variant) (cfg : Cfg) (z0 : ZState) (items : List Item) : String :=
+  let s := closeTxn spec cfg (items.foldl (stepItem spec quiet v cfg) { z := z0, cur := none, out := [] })
   " ".intercalate ("ok" :: s.out.reverse)
 
 end C20
@@ -164,7 +165,15 @@ def handleC20 : List String → Option String
     let v ← C20.parseVariant vb
     let init ← parseBool init
     let items ← items.mapM C20.parseItem
-    some (C20.runLine false v { origin := origin, relativize := rel } (initState init) items)
+    some (C20.runLine false false v { origin := origin, relativize := rel } (initState init) items)
+  | "c20.load" :: rel :: origin :: vb :: init :: items => do
+    -- same history, observed only at commits and queries (what a zone loaded from text lets one see)
+    let rel ← parseBool rel
+    let origin ← parseName origin
+    let v ← C20.parseVariant vb
+    let init ← parseBool init
+    let items ← items.mapM C20.parseItem
+    some (C20.runLine false true v { origin := origin, relativize := rel } (initState init) items)
   | "c20.guard" :: rel :: origin :: vb :: init :: items => do
     -- the guards of `flags_eq_spec_partial` / `bounds_eq_spec_partial` along the history: `g1` after a
     -- transaction while every operation so far met its guard, `q1` for a query that also meets the query guard
@@ -181,7 +190,7 @@ def handleC20 : List String → Option String
     let origin ← parseName origin
     let init ← parseBool init
     let items ← items.mapM C20.parseItem
-    some (C20.runLine true intended { origin := origin, relativize := rel } (initState init) items)
+    some (C20.runLine true false intended { origin := origin, relativize := rel } (initState init) items)
   | _ => none
 
 end Driver
